@@ -1263,7 +1263,9 @@ def check_blank_dirs(exe, verdict):
     """layer directories whose NAMES begin or end with blanks (and drop-in directory postfixes that do): every entry point takes
     them as given - the four that get the two directories as arguments and the two that get them through PARSING_DIRS"""
     ok = 0
-    for n, (un, en) in enumerate((("vendor ", "etc"), ("vendor", " etc"), ("v\t", "e  "), (" u ", " e "))):
+    # ... and directory names of which one is the beginning of the other (two directories all the same)
+    for n, (un, en) in enumerate((("vendor ", "etc"), ("vendor", " etc"), ("v\t", "e  "), (" u ", " e "),
+                                  ("conf", "conf.site"), ("etc.local", "etc"), ("v", "v2"), ("a/b", "a"))):
         R = ROOT + "/bd%d" % n
         U, E = R + "/" + un, R + "/" + en
         s = ["rm %s" % hx(R), "file %s %s" % (hx(U + "/cfg.conf"), hx("M=vendor\nV=1\n")), "file %s %s" % (hx(U + "/cfg.conf.d/a.conf"), hx("A=vendor\n")),
